@@ -566,9 +566,14 @@ func (fr *Frame) external(callee *ssa.Function, x *ssa.Call, args []Val, st *Sta
 		c.assume("(<= " + r.C[2] + " " + s.C[2] + ")")
 		q := c.fresh("qi")
 		c.assume("(forall ((" + q + " Int)) (! (=> (and (<= 0 " + q + ") (< " + q + " " + r.C[2] + ")) (not (= (select " + r.C[0] + " " + q + ") 0))) :pattern ((select " + r.C[0] + " " + q + "))))")
-		// if s has no NUL the result is s
+		// if s has no NUL the result is s; otherwise it is strictly shorter
 		noNul := qAbs(c, s.C[0], s.C[1], lAdd(s.C[1], s.C[2]), func(j string) string { return sNot(sEq(sSel(s.C[0], j), "0")) })
 		q2 := c.fresh("qi")
+		c.assume(sOr(noNul, "(< "+r.C[2]+" "+s.C[2]+")"))
+		// the bytes of the result are bytes of s: in particular ASCII stays ASCII
+		asciiIn := qAbs(c, s.C[0], s.C[1], lAdd(s.C[1], s.C[2]), func(j string) string { return "(< " + sSel(s.C[0], j) + " 128)" })
+		q3 := c.fresh("qi")
+		c.assume(sImp(asciiIn, "(forall (("+q3+" Int)) (! (=> (and (<= 0 "+q3+") (< "+q3+" "+r.C[2]+")) (< (select "+r.C[0]+" "+q3+") 128)) :pattern ((select "+r.C[0]+" "+q3+"))))"))
 		c.assume(sImp(noNul, sAnd(sEq(r.C[2], s.C[2]), "(forall (("+q2+" Int)) (! (=> (and (<= 0 "+q2+") (< "+q2+" "+s.C[2]+")) (= (select "+r.C[0]+" "+q2+") (select "+s.C[0]+" (+ "+s.C[1]+" "+q2+")))) :pattern ((select "+r.C[0]+" "+q2+"))))")))
 		return r
 	case "strings.TrimLeftFunc":
